@@ -11,8 +11,8 @@
                     since the repair of F21/F24). *)
 From Coq Require Import List ZArith NArith Bool.
 From TF Require Import Base Query Index DB Spec proofs.QueryP proofs.IndexDefs proofs.ScanP proofs.IndexP
-     proofs.RepP proofs.DBReadP proofs.SelectP proofs.TimeP QueryObj proofs.GuardGenP proofs.LawsP proofs.DBStepP.
-From TF Require gen.GuardGen.
+     proofs.RepP proofs.DBReadP proofs.SelectP proofs.TimeP QueryObj proofs.GuardGenP proofs.LawsP proofs.DBStepP SearchSem proofs.SearchGenP.
+From TF Require gen.GuardGen gen.SearchGen.
 Import ListNotations.
 
 Theorem C01_search_exact : forall E s q m srt, Inv s -> wf_query E q -> index_safe q ->
@@ -64,6 +64,16 @@ Proof. exact sort_points_stable. Qed.
 Theorem C01_source_guard_is_the_model : forall q, GuardGen.index_is_exact (q_size q) q = index_is_exact q.
 Proof. exact gen_index_is_exact_size. Qed.
 
+(* what the index answers, REGENERATED from tinyflux/index.py on every run (gen/SearchGen.v: IndexResult's set algebra, the dispatch of
+   Index._search_helper over the query object, the operator dispatch of Index._search_timestamps onto find_* and slices), is the
+   model's isearch for every index and every query; hence Index.search(query).items as the source computes it is exact *)
+Theorem C01_source_index_search_is_the_model : forall E i q,
+  option_map ir_items (SearchGen.search_helper E (q_size q) i q) = isearch E i q.
+Proof. exact gen_search_items. Qed.
+Theorem C01_source_index_search_exact : forall E i pts q, Rep i pts -> wf_points pts -> wf_query E q -> exact_for_index q = true ->
+  exists items, option_map ir_items (SearchGen.search_helper E (q_size q) i q) = Some items /\ exact_answer E pts q items.
+Proof. exact gen_search_exact. Qed.
+
 (* the index alone: a duplicate-free set of positions that is exactly the set of matches *)
 Theorem C01_index_exact : forall E i pts q, Rep i pts -> wf_points pts -> wf_query E q -> exact_for_index q = true ->
   exists items, isearch E i q = Some items /\ NoDup items /\
@@ -85,5 +95,7 @@ Print Assumptions C01_dsl_is_index_safe.
 Print Assumptions C01_reads_agree.
 Print Assumptions C01_sorted_stable.
 Print Assumptions C01_source_guard_is_the_model.
+Print Assumptions C01_source_index_search_is_the_model.
+Print Assumptions C01_source_index_search_exact.
 Print Assumptions C01_index_exact.
 Print Assumptions C01_scan_exact.
